@@ -326,7 +326,7 @@ func genSpec(t *rapid.T) string {
 		uses = append(uses, fmt.Sprintf("UNDEF_%c", 'A'+i))
 	}
 	for i, n := 0, defects*rapid.IntRange(0, 3).Draw(t, "undefinedNonTerminals"); i < n; i++ {
-		uses = append(uses, fmt.Sprintf("nowhere_%c", 'a'+i))
+		uses = append(uses, rapid.SampledFrom([][]string{{"nowhere_a", "nowhere_b", "nowhere_c"}, {"term", "factor", "decl"}, {"stmt", "type", "params"}, {"body", "list", "tail"}, {"aa", "ab", "ba"}}).Draw(t, "undefinedNames")[i])
 	}
 	for i, n := 0, defects*rapid.IntRange(0, 2).Draw(t, "dupValues"); i < n; i++ {
 		decls = append(decls, fmt.Sprintf("DVA%d = \"dup%d\"", i, i), fmt.Sprintf("DVB%d = \"dup%d\"", i, i))
@@ -403,6 +403,7 @@ func TestFixedSpecs(t *testing.T) {
 		"grammar g;\nstart = AA | BB | CC | DD;\nXA = \"v\"\nXB = \"v\"\nYA = \"w\"\nYB = \"w\"\nZA = \"u\"\nZB = \"u\"\n",
 		"grammar g;\nstart = start \"+\" start | start \"-\" start | start \"*\" start | start start | \"i\";\n",
 		"grammar g;\nstart = aa bb cc dd ee | \"x\";\n",
+		"grammar g;\nstart = term factor decl stmt | type params body | list tail | \"x\";\n",
 		"grammar g;\nAB = /a{3,2}/\nCD = /[z-a]/\nEF = /(/\nGH = /b{2,1}/\nstart = AB CD EF GH;\n",
 		"grammar g;\nIF = \"if\"\nPLUS = \"+\"\nADD = \"+\"\nSUM = \"+\"\nstart = IF \"if\" PLUS ADD SUM;\n",
 		// definitions without a position of their own (string literals) that collide: two spellings of the same text
